@@ -326,3 +326,32 @@ Definition import_tsecret (s : bytes) : option (list (list (Z * Z))) :=
     end
   | None => None
   end.
+
+(* ---- TMCG_Stack<TMCG_Card>:  stk^n^card^card^...^  (same template code as for VTMF_Card) ------- *)
+Fixpoint read_tcards (n : nat) (s : bytes) : option (list (list (list Z)) * bytes) :=
+  match n with
+  | O => Some ([], s)
+  | S m =>
+    match field s hat with
+    | Some (f, r) =>
+      match import_tcard f with
+      | Some c => match read_tcards m r with Some (cs, r') => Some (c :: cs, r') | None => None end
+      | None => None
+      end
+    | None => None
+    end
+  end.
+
+Definition export_tstack (st : list (list (list Z))) : bytes :=
+  magic_stk ++ [hat] ++ encode_dec (N.of_nat (length st)) ++ [hat]
+  ++ concat (map (fun c => export_tcard c ++ [hat]) st).
+
+Definition import_tstack (old : list (list (list Z))) (s : bytes) : option (list (list (list Z))) :=
+  match cm s magic_stk hat with
+  | Some r0 =>
+    match import_size r0 with
+    | Some (n, r1) => match read_tcards (N.to_nat n) r1 with Some (cs, _) => Some (old ++ cs) | None => None end
+    | None => None
+    end
+  | None => None
+  end.
